@@ -315,6 +315,12 @@ def random_value(rng, s, present=0.8, big=False):
     if k == 'Y':
         return ('y', random_text(rng) if s[2] else random_bytes(rng, big))
     if k == 'N':
+        if rng.random() < 0.15:
+            # total size near the point where the Name's Length (or an enclosing one) changes form
+            from ndn.encoding import Component
+            total = rng.choice([250, 251, 252, 253, 254, 255, 256]) + rng.choice([-4, 0, 0, 3])
+            n = total - 2 if total - 2 < 253 else total - 4
+            return ('n', [random_comp(rng), bytes(Component.from_bytes(bytes(rng.getrandbits(8) for _ in range(max(n, 0))), 8))][rng.choice([0, 1]):])
         return ('n', [random_comp(rng) for _ in range(rng.choice([0, 1, 2, 4]))])
     if k == 'M':
         return ('m', [random_value(rng, x, present, big) for x in s[3]])
